@@ -1391,7 +1391,12 @@ impl DbInner {
 
 	fn shutdown(&self) {
 		self.shutdown.store(true, Ordering::SeqCst);
-		self.log_queue_wait.cv.notify_one();
+		{
+			// Notify under the mutex: the log worker tests `shutdown` and starts waiting while it
+			// holds it, so the notification cannot fall between its test and its wait.
+			let _queue = self.log_queue_wait.work.lock();
+			self.log_queue_wait.cv.notify_one();
+		}
 		self.flush_worker_wait.signal();
 		self.log_worker_wait.signal();
 		self.commit_worker_wait.signal();
